@@ -124,6 +124,9 @@ class Method:
         self.features = set()
         self.units = None
         self.registers = self.ins = None
+        # how the back edge of bottom-tested loops is compiled: False: `if cond -> head` (dx); True: `if !cond -> exit; goto head` (other
+        # compilers / optimisers): the latch block's TRUE branch then leaves the loop
+        self.latch_exit_goto = False
 
     @property
     def env(self):
@@ -132,6 +135,7 @@ class Method:
     def clone(self, body=None, separate_banks=None):
         m = Method(self.name, self.ret, self.params, self.locals, self.body if body is None else body, self.pool, self.subject, self.shape,
                    self.separate_banks if separate_banks is None else separate_banks)
+        m.latch_exit_goto = self.latch_exit_goto
         return m
 
     def shape_sig(self):
@@ -403,6 +407,16 @@ class Compiler:
                 return False
         return True
 
+    def back_edge(self, c, top):
+        if self.m.latch_exit_goto:
+            self.feat.add("latch:exit-goto")
+            out = self.label()
+            self.branch(c, out, False)
+            self.emit("goto", ("lbl", top))
+            self.place(out)
+        else:
+            self.branch(c, top, True)
+
     def stmt(self, s):
         k = s[0]
         if k in ("assign", "dead"):
@@ -454,7 +468,7 @@ class Compiler:
                 ft = self.block(body)
                 assert ft, "bottom-tested loop body must fall through"
                 self.place(cond)
-                self.branch(c, top, True)
+                self.back_edge(c, top)
             return True
         if k == "dowhile":
             _, body, c = s
@@ -463,7 +477,7 @@ class Compiler:
             self.place(top)
             ft = self.block(body)
             assert ft
-            self.branch(c, top, True)
+            self.back_edge(c, top)
             return True
         if k == "switch":
             _, e, cases, default, kind = s
@@ -894,6 +908,7 @@ class Gen:
     def __init__(self, rng, palette="full"):
         self.rng = rng
         self.palette = palette
+        self.assign_params = False
 
     # ---- expressions --------------------------------------------------------------------------------
     def const(self, T):
@@ -975,6 +990,11 @@ class Gen:
     # ---- statements ---------------------------------------------------------------------------------
     def assign(self, decl, vars_, depth):
         r = self.rng
+        if self.assign_params and r.random() < 0.15:
+            pc = sorted(n for n in vars_ if n[0] == "p")
+            if pc:   # compilers reuse the parameter registers for `p += ...`
+                n = r.choice(pc)
+                return ("assign", n, self.expr(vars_[n], depth, vars_))
         cand = [n for n in decl if n[0] == "x"]
         n = r.choice(cand)
         return ("assign", n, self.expr(decl[n], depth, vars_))
@@ -999,7 +1019,7 @@ class Gen:
             if k == "assign":
                 s = self.assign(decl, vars_, depth)
                 out.append(s)
-                vars_[s[1]] = decl[s[1]]
+                vars_[s[1]] = decl[s[1]] if s[1] in decl else vars_[s[1]]
             elif k == "if":
                 leaves = r.choice((1, 1, 2, 2, 3)) if "sc" in allow else 1
                 c = self.cond(vars_, leaves, min(depth, 1))
@@ -1115,6 +1135,8 @@ class Gen:
             ret = r.choice("IIJ")
             decl = {"x0": "I", "x1": r.choice("IJ"), "x2": r.choice("IJ")}
             vars_ = dict(params)
+            self.assign_params = r.random() < 0.3
+            latch = r.random() < 0.25
             body = []
             for n_ in ("x0", "x1"):
                 if r.random() < 0.8:
@@ -1132,6 +1154,7 @@ class Gen:
             used = assigned_names(body)
             locals_ = [(n_, t) for n_, t in list(decl.items()) + [("k0", "I"), ("k1", "I"), ("k2", "I")] if n_ in used]
             m = Method(name, ret, params, locals_, body, pool=pool, subject=subject, separate_banks=r.random() < 0.25)
+            m.latch_exit_goto = latch
             try:
                 return compile_method(m)
             except TooBig:
@@ -1221,6 +1244,19 @@ def p0_methods(rng):
                 if form == "2addr":  # x = x op y  (the in-place statement form)
                     add(T, [("p0", T), ("p1", tb)], [("x0", T)],
                         [("assign", "x0", pa), ("assign", "x0", ("bin", op, T, ("var", "x0"), pb, form)), ("return", ("var", "x0"))], "op:" + insn, "inplace")
+                # old and new value in ONE Java variable (loop accumulator / redefinition before a join): the writer may print a compound assignment
+                kinit = ("assign", "k0", mkconst("I", 0))
+                kcond = ("cmp", "lt", "I", ("var", "k0"), mkconst("I", 3), False)
+                kinc = ("assign", "k0", ("bin", "add", "I", ("var", "k0"), 1, "lit8"))
+                x0v = ("var", "x0")
+                add(T, [("p0", T), ("p1", tb)], [("x0", T), ("k0", "I")],
+                    [("assign", "x0", pa), kinit, ("while", kcond, [("assign", "x0", ("bin", op, T, x0v, pb, form)), kinc], "top"), ("return", x0v)], "op:" + insn + "@acc1", "acc1")
+                if form == "3reg" and tb == T:   # x = y op x : the accumulator is the SECOND operand (not commutative for - / % << >> >>>)
+                    add(T, [("p0", T), ("p1", T)], [("x0", T), ("k0", "I")],
+                        [("assign", "x0", pa), kinit, ("while", kcond, [("assign", "x0", ("bin", op, T, pb, x0v, form)), kinc], "top"), ("return", x0v)], "op:" + insn + "@acc2", "acc2")
+                    add(T, [("p0", T), ("p1", T)], [("x0", T)],
+                        [("assign", "x0", pa), ("if", ("cmp", "gt", T, pb, mkconst(T, 0), T == "I"), [("assign", "x0", ("bin", op, T, pb, x0v, form))], []), ("return", x0v)],
+                        "op:" + insn + "@join2", "join2")
     # C: literal forms
     for op in LIT8_OPS:
         for lit in ([1, 7, 33, -128] if op in ("shl", "shr", "ushr") else [1, 7, -1, -128, 127]):
@@ -1633,9 +1669,10 @@ def pattern_methods(rng):
     """PC: control nesting, PS: switch shapes, PD: definition/declaration/type patterns. One subject per method."""
     ms = []
 
-    def add(pool, ret, params, body, subject, shape, locals_=None):
+    def add(pool, ret, params, body, subject, shape, locals_=None, latch=False):
         body = drop_dead(body)
         m = Method("m%d" % len(ms), ret, params, locals_ if locals_ is not None else _locals_for(body), body, pool=pool, subject=subject, shape=shape)
+        m.latch_exit_goto = latch
         ms.append(compile_method(m))
     P2 = [("p0", "I"), ("p1", "I")]
     x0 = ("var", "x0")
@@ -1812,6 +1849,33 @@ def pattern_methods(rng):
     }
     for name, body in prop.items():
         add("PD", "I", P2, body, "prop:temp-used-after-" + name, name)
+    # ---- PD/param: the parameter registers are ordinary registers - javac/dx compile `p += 5` into an instruction that overwrites them
+    p0, p1 = ("var", "p0"), ("var", "p1")
+    cp = ("assign", "x1", ("var", "p0", "move"))
+    p0plus = ("assign", "p0", ("bin", "add", "I", p0, 5, "lit8"))
+    par = {
+        "copy-then-reassign": [cp, p0plus, ("return", ("bin", "mul", "I", ("var", "x1"), p0, "3reg"))],
+        "copy-then-reassign-in-branch": [cp, ("if", c2, [p0plus], []), ("return", ("bin", "xor", "I", ("var", "x1"), p0, "3reg"))],
+        "copy-then-reassign-in-both-branches": [cp, ("if", c2, [p0plus], [("assign", "p0", ("bin", "mul", "I", p0, 3, "lit8"))]), ("return", ("bin", "xor", "I", ("var", "x1"), p0, "3reg"))],
+        "copy-then-reassign-in-loop": [cp, k0, ("while", lc, [("assign", "p0", ("bin", "add", "I", p0, ("var", "k0"), "3reg")), inc], "top"), ("return", ("bin", "xor", "I", ("var", "x1"), p0, "3reg"))],
+        "copy-used-twice-after-reassign": [cp, p0plus, ("return", ("bin", "add", "I", ("bin", "mul", "I", ("var", "x1"), ("var", "x1"), "3reg"), p0, "3reg"))],
+        "reassign-then-use": [("assign", "p0", ("bin", "mul", "I", p0, 3, "lit8")), ("return", ("bin", "add", "I", p0, p1, "3reg"))],
+        "reassign-in-branch-then-use": [("if", c2, [p0plus], []), ("return", ("bin", "sub", "I", p0, p1, "3reg"))],
+        "param-as-loop-counter": [("assign", "p0", ("bin", "and", "I", p0, 7, "lit8")), ("assign", "x0", _c(0)),
+                                  ("while", ("cmp", "gt", "I", p0, _c(0), True), [("assign", "x0", ("bin", "add", "I", x0, p1, "3reg")), ("assign", "p0", ("bin", "add", "I", p0, -1, "lit8"))], "top"),
+                                  ("return", x0)],
+        "swap-through-copy": [cp, ("assign", "p0", p1), ("assign", "p1", ("var", "x1")), ("return", ("bin", "sub", "I", p0, p1, "3reg"))],
+        "copy-then-reassign-use-in-condition": [cp, p0plus, ("if", ("cmp", "lt", "I", ("var", "x1"), p1, False), [("return", p0)], []), ("return", ("var", "x1"))],
+    }
+    for name, body in par.items():
+        add("PD", "I", P2, body, "param:" + name, name)
+    # ---- PC/latch: bottom-tested loops whose back edge is `if !cond -> exit; goto head`
+    for a in ("do-while", "while-bottom"):
+        for extra, tag in (([], "single"), ([early], "single+early-return")):
+            add("PC", "I", P2, [init] + _pat_construct(a, [_acc()] + extra, 0) + [("return", x0)], "latch:exit-goto:" + a, tag, latch=True)
+        for b in ("if", "if-else", "while-top", "do-while"):
+            add("PC", "I", P2, [init] + _pat_construct(a, _pat_construct(b, [_acc()], 1, sel=("var", "p1")) + [post], 0) + [("return", x0)], "latch:exit-goto:%s/%s" % (a, b), "first",
+                latch=True)
     for cast in ("int-to-byte", "int-to-char", "int-to-short"):
         N = ("assign", "x1", ("un", cast, ("var", "p0")))
         W_ = ("assign", "x1", ("bin", "add", "I", ("var", "p0"), ("var", "p1"), "3reg"))
